@@ -2,7 +2,9 @@
 # Build the whole Coq development from files on disk (offline), full .vo build.
 # make -k: one broken file must not prevent the other properties' proofs from building;
 # each check rebuilds (and judges) its own targets anyway.
-cd "$(dirname "$0")/../coq"
+cd "$(dirname "$0")/.."
+PYTHONPATH=. /venv/bin/python -m harness.translate "${VERIF_REPO:-/repo}" > /dev/null
+cd coq
 coq_makefile -f _CoqProject -o Makefile > /dev/null || exit 1
 timeout 3400 make -k -j16 2>&1 | grep -v '^COQC\|^COQDEP\|^CLEAN' | tail -15
 cd ..
